@@ -1,7 +1,7 @@
 (* C13 - Word counting, enumeration, lengths and random sampling match the language.
    Only statements, each closed by short glue, with Print Assumptions beneath. *)
 From Coq Require Import List Arith NArith Bool Sorted.
-From AV Require Import Base.Util Spec.Lang Spec.FA Spec.Words Model.Count Proofs.Count.
+From AV Require Import Base.Util Spec.Lang Spec.FA Spec.Words Model.Count Proofs.Pump Proofs.Count.
 Import ListNotations.
 
 (* count_words_of_length(k) is the number of accepted words of length k *)
@@ -93,21 +93,28 @@ Print Assumptions C13_cardinality_exact.
 (* iteration (after the repair): the first n items are the first n words of the (length,
    lexicographic) listing; either n words are produced or the whole language is (so every
    accepted word eventually appears, once, and nothing else does); an empty language produces
-   nothing.  FULL statement: *)
-Definition C13_iter_order_complete_statement : Prop := forall m n, valid_dfa m = true ->
+   nothing.  For an infinite language the model searches n*(|Q|+1) levels from the minimum length;
+   that is enough because every window of |Q| consecutive lengths holds an accepted word
+   (C13_infinite_window, pumping down), so the model never answers "out of fuel". *)
+Theorem C13_iter_order_complete : forall m n, valid_dfa m = true ->
   exists ws L, iter_upto m n = Ok ws /\ ws = firstn n (words_below m L) /\
                (length ws = n \/ (forall w, dfa_acc m w = true -> In w ws)).
-(* PROVED: the same, except that for an INFINITE language the model may answer "out of fuel"
-   (its level budget n*(|Q|+1) is not proved sufficient; the harness treats that answer as a
-   disagreement).  Finite and empty languages: full statement. *)
-Theorem C13_iter_order_complete_partial : forall m n, valid_dfa m = true ->
-  match iter_upto m n with
-  | Ok ws => exists L, ws = firstn n (words_below m L) /\
-                       (length ws = n \/ (forall w, dfa_acc m w = true -> In w ws))
-  | Err e => e = Fuel /\ (forall k, exists w, dfa_acc m w = true /\ k < length w)
-  end.
 Proof. intros m n Hv. exact (iter_upto_spec m Hv n). Qed.
-Print Assumptions C13_iter_order_complete_partial.
+Print Assumptions C13_iter_order_complete.
+
+(* the fact behind the level budget: an accepted word at least as long as the number of states can
+   be shortened by 1..|Q| symbols, hence an infinite language has an accepted word in every window
+   of |Q| consecutive lengths, and at least n words shorter than lo + n*(|Q|+1) *)
+Theorem C13_infinite_window : forall m, valid_dfa m = true ->
+  (forall n, exists w, dfa_acc m w = true /\ n < length w) ->
+  (forall L, exists w, dfa_acc m w = true /\ L <= length w < L + length (d_states m)) /\
+  (forall lo n, n <= length (words_below m (lo + n * S (length (d_states m))))).
+Proof.
+  intros m Hv Hinf. split.
+  - exact (Pump.window_word m Hv Hinf).
+  - intros lo n. exact (words_below_grow m Hv lo n Hinf).
+Qed.
+Print Assumptions C13_infinite_window.
 
 Theorem C13_iter_empty_language : forall m n, valid_dfa m = true ->
   (forall w, dfa_acc m w = false) -> iter_upto m n = Ok [].
